@@ -1755,8 +1755,20 @@ class Interp:
         return (yield from self.yield_from(it, fr))
 
     def yield_from(self, it, fr=None, event="Y"):
-        """PEP 380"""
+        """PEP 380.  While a frame is suspended in `yield from <sub-iterator>` the sub-iterator is recorded on the frame
+        (`yf_delegate`): a sub-generator that is not bound to any variable (`yield from inner()`) is otherwise invisible to
+        the canonical cut keys of a bisimulation (opt-in there: Bisim.deep_keys)"""
         g = yield from self.get_iter(it)
+        if fr is None:
+            return (yield from self._yield_from(g, event))
+        saved = getattr(fr, "yf_delegate", None)
+        fr.yf_delegate = g
+        try:
+            return (yield from self._yield_from(g, event))
+        finally:
+            fr.yf_delegate = saved
+
+    def _yield_from(self, g, event):
         if not isinstance(g, (GenObj, AbsGen)):
             # plain iterator: yield each item, sends must be None
             while True:
